@@ -4,7 +4,7 @@ From Coq Require Import List NArith ZArith String Bool.
 From GQL Require Import Exec.Syntax Validate.VSyntax Validate.Overlap Validate.OverlapSpec Validate.Rules
      Exec.Exec Proofs.ValidateOverlap Proofs.ValidateRules Proofs.ValidateMerge Proofs.ValidateMemo Proofs.ValidateInputFields Proofs.ValidateArgs Proofs.ValidateCycles Proofs.ValidateUnused Proofs.ValidateMemoHard Proofs.ValidateL1 Validate.All Proofs.ValidateAll Proofs.ValidateCyclesComplete
      Validate.OverlapWf Proofs.ValidateReflect Proofs.ValidateReflectClose Proofs.ValidateFuel Proofs.ValidateDecide
-     Proofs.ValidateWf Proofs.ValidateRank Proofs.ValidateWfDoc Proofs.ValidateClosure Proofs.ValidateRulesDecl Proofs.ValidateLiteral Proofs.ValidateWitness Proofs.ValidateOffending.
+     Proofs.ValidateWf Proofs.ValidateRank Proofs.ValidateWfDoc Proofs.ValidateClosure Proofs.ValidateRulesDecl Proofs.ValidateLiteral Proofs.ValidateWitness Proofs.ValidateOffending Proofs.ValidateFuelMono Proofs.ValidateTermination Proofs.ValidateLocated Proofs.ValidateLocated2.
 Import ListNotations.
 Open Scope string_scope.
 
@@ -477,6 +477,192 @@ Theorem C02_accept_iff : forall fuel S W,
 Proof. exact accept_iff. Qed.
 Print Assumptions C02_accept_iff.
 
+(* ---- locations: every node a rule's model reports is a node of the document of the kind the
+   rule names (the remaining rules; the overlap rule: C02_overlap_sound_witness) ---- *)
+(* the name node of a named operation / the node of an anonymous one *)
+Theorem C02_rule_located_unique_operation_names : forall W x, In x (rule_unique_operation_names W) -> exists o, In o (w_ops W) /\ x = snd (op_key o).
+Proof.
+  intros; eapply unique_operation_names_located; eassumption.
+Qed.
+Print Assumptions C02_rule_located_unique_operation_names.
+
+(* the name node of a fragment definition *)
+Theorem C02_rule_located_unique_fragment_names : forall W x, In x (rule_unique_fragment_names W) -> exists f, In f (w_frags W) /\ x = wf_nid f.
+Proof.
+  intros; eapply unique_fragment_names_located; eassumption.
+Qed.
+Print Assumptions C02_rule_located_unique_fragment_names.
+
+(* the name node of a variable definition *)
+Theorem C02_rule_located_unique_variable_names : forall W x, In x (rule_unique_variable_names W) -> exists o v, In o (w_ops W) /\ In v (wo_vars o) /\ x = wv_nid v.
+Proof.
+  intros; eapply unique_variable_names_located; eassumption.
+Qed.
+Print Assumptions C02_rule_located_unique_variable_names.
+
+(* an argument node of a field or directive *)
+Theorem C02_rule_located_unique_argument_names : forall S W x, In x (rule_unique_argument_names S W) -> exists i a, In i (doc_items S W) /\ In a (item_args i) /\ x = wa_id a.
+Proof.
+  intros; eapply unique_argument_names_located; eassumption.
+Qed.
+Print Assumptions C02_rule_located_unique_argument_names.
+
+(* the selection set of a leaf field / the composite field without one *)
+Theorem C02_rule_located_scalar_leafs : forall S W x, In x (rule_scalar_leafs S W) -> exists pt fd id nm args ssid hs, In (IField pt fd id nm args ssid hs) (doc_items S W) /\ (x = ssid \/ x = id).
+Proof.
+  intros; eapply scalar_leafs_located; eassumption.
+Qed.
+Print Assumptions C02_rule_located_scalar_leafs.
+
+(* the directive node *)
+Theorem C02_rule_located_known_directives : forall S W x, In x (rule_known_directives S W) -> exists loc dd d, In (IDir loc dd d) (doc_items S W) /\ x = wd_id d.
+Proof.
+  intros; eapply known_directives_located; eassumption.
+Qed.
+Print Assumptions C02_rule_located_known_directives.
+
+(* the argument node *)
+Theorem C02_rule_located_known_argument_names : forall S W x, In x (rule_known_argument_names S W) -> exists ow ad a, In (IArg ow ad a) (doc_items S W) /\ x = wa_id a.
+Proof.
+  intros; eapply known_argument_names_located; eassumption.
+Qed.
+Print Assumptions C02_rule_located_known_argument_names.
+
+(* the field or directive node *)
+Theorem C02_rule_located_provided_non_null_arguments : forall S W x, In x (rule_provided_non_null_arguments S W) -> (exists pt fd nm args ssid hs, In (IField pt fd x nm args ssid hs) (doc_items S W)) \/ (exists loc dd d, In (IDir loc dd d) (doc_items S W) /\ x = wd_id d).
+Proof.
+  intros; eapply provided_non_null_arguments_located; eassumption.
+Qed.
+Print Assumptions C02_rule_located_provided_non_null_arguments.
+
+(* the inline fragment or the spread *)
+Theorem C02_rule_located_possible_fragment_spreads : forall S W x, In x (rule_possible_fragment_spreads S W) -> (exists pt ty tc, In (IInline pt ty x tc) (doc_items S W)) \/ (exists pt nid g, In (ISpread pt x nid g) (doc_items S W)).
+Proof.
+  intros; eapply possible_fragment_spreads_located; eassumption.
+Qed.
+Print Assumptions C02_rule_located_possible_fragment_spreads.
+
+(* the type condition *)
+Theorem C02_rule_located_fragments_on_composite_types : forall S W x, In x (rule_fragments_on_composite S W) -> (exists pt ty id tc, In (IInline pt ty id (Some tc)) (doc_items S W) /\ x = fst tc) \/ (exists f, In f (w_frags W) /\ x = wf_tcid f).
+Proof.
+  intros; eapply fragments_on_composite_located; eassumption.
+Qed.
+Print Assumptions C02_rule_located_fragments_on_composite_types.
+
+(* the fragment definition *)
+Theorem C02_rule_located_no_unused_fragments : forall W x, In x (rule_no_unused_fragments W) -> exists f, In f (w_frags W) /\ x = wf_id f.
+Proof.
+  intros; eapply no_unused_fragments_located; eassumption.
+Qed.
+Print Assumptions C02_rule_located_no_unused_fragments.
+
+(* the variable usage *)
+Theorem C02_rule_located_no_undefined_variables : forall S W x, In x (rule_no_undefined_variables S W) -> exists o u, In o (w_ops W) /\ In u (rec_uses S W o) /\ x = fst u.
+Proof.
+  intros; eapply no_undefined_variables_located; eassumption.
+Qed.
+Print Assumptions C02_rule_located_no_undefined_variables.
+
+(* the variable definition *)
+Theorem C02_rule_located_no_unused_variables : forall S W x, In x (rule_no_unused_variables S W) -> exists o v, In o (w_ops W) /\ In v (wo_vars o) /\ x = wv_vid v.
+Proof.
+  intros; eapply no_unused_variables_located; eassumption.
+Qed.
+Print Assumptions C02_rule_located_no_unused_variables.
+
+(* the type of the variable definition *)
+Theorem C02_rule_located_variables_are_input_types : forall S W x, In x (rule_variables_are_input_types S W) -> exists o v, In o (w_ops W) /\ In v (wo_vars o) /\ x = wt_id (wv_type v).
+Proof.
+  intros; eapply variables_are_input_types_located; eassumption.
+Qed.
+Print Assumptions C02_rule_located_variables_are_input_types.
+
+(* the default value *)
+Theorem C02_rule_located_default_values_of_correct_type : forall S W x, In x (rule_default_values_of_correct_type S W) -> exists o v d, In o (w_ops W) /\ In v (wo_vars o) /\ wv_default v = Some d /\ x = wv_id d.
+Proof.
+  intros; eapply default_values_of_correct_type_located; eassumption.
+Qed.
+Print Assumptions C02_rule_located_default_values_of_correct_type.
+
+(* the definition of the variable *)
+Theorem C02_rule_located_variables_in_allowed_position : forall S W x, In x (rule_variables_in_allowed_position S W) -> exists o vd, In o (w_ops W) /\ In vd (wo_vars o) /\ x = wv_vid vd.
+Proof.
+  intros; eapply variables_in_allowed_position_located; eassumption.
+Qed.
+Print Assumptions C02_rule_located_variables_in_allowed_position.
+
+(* a named-type node *)
+Theorem C02_rule_located_known_type_names : forall S W x, In x (rule_known_type_names S W) -> (exists o v, In o (w_ops W) /\ In v (wo_vars o) /\ x = fst (type_named (wv_type v))) \/ (exists pt ty id tc, In (IInline pt ty id (Some tc)) (doc_items S W) /\ x = fst tc) \/ (exists f, In f (w_frags W) /\ x = wf_tcid f).
+Proof.
+  intros; eapply known_type_names_located; eassumption.
+Qed.
+Print Assumptions C02_rule_located_known_type_names.
+
+(* a fragment spread inside some fragment definition (the spread that closes / starts the cycle) *)
+Theorem C02_rule_located_no_fragment_cycles : forall W x, In x (rule_no_fragment_cycles W) ->
+  exists f, In f (w_frags W) /\ In x (map fst (ctx_spreads (wf_sel f))).
+Proof. exact no_fragment_cycles_located. Qed.
+Print Assumptions C02_rule_located_no_fragment_cycles.
+
+(* the name node of a field of an object literal that occurs in a default value or an argument value *)
+Theorem C02_rule_located_unique_input_field_names : forall S W x, In x (rule_unique_input_field_names S W) ->
+  exists v o p, sub_obj v o /\ In p o /\ x = fst p /\
+    ((exists op vd, In op (w_ops W) /\ In vd (wo_vars op) /\ wv_default vd = Some v) \/
+     (exists ow ad a, In (IArg ow ad a) (doc_items S W) /\ wa_val a = v)).
+Proof. exact unique_input_field_names_located. Qed.
+Print Assumptions C02_rule_located_unique_input_field_names.
+
+(* ---- termination of the validator's model as a whole ----
+   Only the overlap rule's model takes fuel.  The other recursive models are structural
+   (literal validity on nested values, the TypeInfo walk, NoUnusedFragments / variable usages
+   via closures of |fragments| + 1 rounds: C02_closure_reaches_fixpoint) or carry an internal
+   fuel that is proved never to run out (NoFragmentCycles' detect: C02_cycles_fuel_irrelevant).
+   vfuel W = max 200 (fuel_of (erase W)) is computable and polynomial: 3 + 6 * ((|fragments| + 1)
+   * (depth + 1) + depth). *)
+
+(* The overlap model: once a run completes within its fuel, every larger fuel gives the same
+   conflicts and completes too -- memoised or not, cyclic documents included. *)
+Theorem C02_overlap_fuel_irrelevant : forall S D memo f f', (f <= f')%nat ->
+  run_complete S D memo f = true ->
+  run_overlap S D memo f' = run_overlap S D memo f /\ run_complete S D memo f' = true.
+Proof. exact run_fuel_mono. Qed.
+Print Assumptions C02_overlap_fuel_irrelevant.
+
+(* Acyclic documents (decidable test ranked_b): from vfuel on, the validator's model returns one
+   fixed list and the overlap model never runs out of fuel. *)
+Theorem C02_validate_fuel_sufficient : forall S W fuel,
+  ranked_b (erase W) = true -> (vfuel W <= fuel)%nat ->
+  validate_model fuel S W = validate_model (vfuel W) S W /\ run_complete S (erase W) true fuel = true.
+Proof. exact validate_fuel_sufficient. Qed.
+Print Assumptions C02_validate_fuel_sufficient.
+
+(* Any document, cyclic ones included (partial: the hypothesis is that the memoised overlap model
+   completes at some fuel f -- it terminates there through its visited sets, but a static bound
+   on its recursion depth in terms of the number of memo entries is not proved; the runner
+   evaluates run_complete on every case): from f on, the same list and no out-of-fuel. *)
+Theorem C02_validate_fuel_sufficient_cyclic_partial : forall S W f fuel,
+  run_complete S (erase W) true f = true -> (f <= fuel)%nat ->
+  validate_model fuel S W = validate_model f S W /\ run_complete S (erase W) true fuel = true.
+Proof. exact validate_fuel_stable. Qed.
+Print Assumptions C02_validate_fuel_sufficient_cyclic_partial.
+
+(* More fuel, same verdict -- for every schema and every document: an acyclic document by
+   C02_validate_fuel_sufficient, a cyclic one because NoFragmentCycles (or UniqueFragmentNames)
+   rejects it whatever the overlap model does. *)
+Theorem C02_validate_fuel_irrelevant : forall S W fuel fuel',
+  (vfuel W <= fuel)%nat -> (vfuel W <= fuel')%nat ->
+  (validate_model fuel S W = [] <-> validate_model fuel' S W = []).
+Proof. exact validate_fuel_irrelevant. Qed.
+Print Assumptions C02_validate_fuel_irrelevant.
+
+(* NoFragmentCycles: the depth-first search with any fuel of at least |fragments| + 1 is the
+   rule's model (which uses exactly |fragments| + 1): the search never exhausts its fuel, every
+   recursive call descends into a definition name not visited before. *)
+Theorem C02_cycles_fuel_irrelevant : forall W n, (Datatypes.S (List.length (w_frags W)) <= n)%nat ->
+  cycles_with_fuel W n = rule_no_fragment_cycles W.
+Proof. exact cycles_fuel_irrelevant. Qed.
+Print Assumptions C02_cycles_fuel_irrelevant.
+
 (* ---- non-vacuity ---- *)
 Definition exS : schema :=
   {| s_types := [("String", TScalar SString);
@@ -522,6 +708,24 @@ Example C02_nonvacuous_accept :
   ids_ok (erase (exW "b")) = true /\
   Nat.leb (fuel_of (erase (exW "b"))) 50 = true /\ validate_model 50 exS (exW "b") = [2%N].
 Proof. repeat split; vm_compute; reflexivity. Qed.
+
+(* a cyclic document: { ...F } fragment F on Q { a ...G } fragment G on Q { ...F }; the memoised
+   overlap model completes (visited sets), the verdict does not depend on the fuel *)
+Definition exWcyc : wdoc :=
+  {| w_ops := [{| wo_id := 0; wo_kind := OpQuery; wo_name := None; wo_vars := []; wo_dirs := []; wo_ssid := 0;
+                  wo_sel := [WSpread 2 5 "F" []] |}];
+     w_frags := [{| wf_id := 9; wf_nid := 18; wf_name := "F"; wf_tcid := 23; wf_cond := "Q"; wf_dirs := [];
+                    wf_ssid := 25; wf_sel := [WField 27 None "a" [] [] 0 []; WSpread 29 32 "G" []] |};
+                 {| wf_id := 36; wf_nid := 45; wf_name := "G"; wf_tcid := 50; wf_cond := "Q"; wf_dirs := [];
+                    wf_ssid := 52; wf_sel := [WSpread 54 57 "F" []] |}] |}.
+Example C02_nonvacuous_termination :
+  ranked_b (erase exWcyc) = false /\ vfuel exWcyc = 200%nat /\
+  run_complete exS (erase exWcyc) true (vfuel exWcyc) = true /\
+  validate_model (vfuel exWcyc) exS exWcyc = validate_model 1000 exS exWcyc /\
+  validate_model (vfuel exWcyc) exS exWcyc <> [] /\
+  cycles_with_fuel exWcyc 50 = rule_no_fragment_cycles exWcyc /\ rule_no_fragment_cycles exWcyc <> [] /\
+  ranked_b (erase (exW "a")) = true /\ validate_model (vfuel (exW "a")) exS (exW "a") = [].
+Proof. repeat split; try (vm_compute; reflexivity); vm_compute; discriminate. Qed.
 
 Example C02_nonvacuous_rules :
   rule_lone_anonymous {| w_ops := [ {| wo_id := 0; wo_kind := OpQuery; wo_name := None; wo_vars := [];
